@@ -190,6 +190,10 @@ func runC05(c *mon.Ctx) {
 				a.HasAttrStmt, a.Attrs = false, nil // the first assertion is an authentication-only one; a later one carries the attributes
 			}
 			a.Confs[0].NotOnOrAfter = sc[i].text
+			if a.Authn != nil && r.IntN(4) == 0 {
+				// the session's own end (which no warning or check is about), before or after the clock
+				a.Authn.SessionNotOnOrAfter = c05Bound(r, now, randDelta(r, r.IntN(2) == 0), "ok").text
+			}
 			if r.IntN(5) == 0 {
 				// a lower bound on the confirmation data (which the warning is not about), before or after the clock
 				a.Confs[0].NotBefore = c05Bound(r, now, randDelta(r, r.IntN(2) == 0), "ok").text
@@ -305,6 +309,24 @@ func runC05(c *mon.Ctx) {
 					cs.Outcome("warn-mismatch")
 					cs.Violation(fmt.Sprintf("invalidtime-%v-want-%v", ai.WarningInfo.InvalidTime, wantWarn), "InvalidTime=%v but now=%s NotBefore=%s NotOnOrAfter=%s (half-open [NotBefore,NotOnOrAfter) requires %v)", ai.WarningInfo.InvalidTime, now.Format(time.RFC3339Nano), *nb.text, *nooa.text, wantWarn)
 					return
+				}
+				// the conditions of the returned assertion judged again later, with the SP clock moved to the other side of
+				// a bound (and back inside): the warning follows the clock at the time of the call
+				if k%3 == 0 && nb.kind == "ok" && nooa.kind == "ok" && nb.t.Before(nooa.t) {
+					for _, probe := range []struct {
+						t    time.Time
+						want bool
+					}{{nooa.t, true}, {nb.t, false}, {nb.t.Add(-time.Nanosecond), true}, {nooa.t.Add(-time.Nanosecond), false}} {
+						clk.Set(probe.t)
+						wi, werr := sp.VerifyAssertionConditions(&resp.Assertions[0])
+						if werr != nil || wi == nil || wi.InvalidTime != probe.want {
+							cs.Outcome("later-warn-mismatch")
+							cs.Violation("later-conditions-check-ignores-clock", "VerifyAssertionConditions on the returned assertion with the SP clock moved to %s: InvalidTime=%v (err %v), want %v (window [%s, %s))", probe.t.Format(time.RFC3339Nano), wi != nil && wi.InvalidTime, werr, probe.want, *nb.text, *nooa.text)
+							clk.Set(now)
+							return
+						}
+					}
+					clk.Set(now)
 				}
 				if wantWarn {
 					cs.Outcome("accepted-warned")
